@@ -870,7 +870,12 @@ def _parse_phase_numpydoc_and_google(
             "returns": (
                 OrderedDict(
                     (
-                        _interpolate_defaults_and_force_future_default(
+                        # Not `_interpolate_defaults_and_force_future_default`: a return is not a parameter
+                        partial(
+                            interpolate_defaults,
+                            emit_default_doc=emit_default_doc,
+                            default_search_announce=default_search_announce,
+                        )(
                             _set_name_and_type(
                                 (
                                     "return_type",
